@@ -73,8 +73,10 @@ static int include_next_idx;
 static Token *preprocess2(Token *tok);
 static Macro *find_macro(Token *tok);
 
+// A directive begins with a "#" at the beginning of a line. Tokens that
+// result from macro replacement never form a directive.
 static bool is_hash(Token *tok) {
-  return tok->at_bol && equal(tok, "#");
+  return tok->at_bol && !tok->origin && equal(tok, "#");
 }
 
 // Some preprocessor directives such as #include allow extraneous
